@@ -153,6 +153,12 @@ class HistGen:
         r = self.r
         evs = []
         n = r.randint(2, self.max_events)
+        if r.random() < 0.5:
+            # several dynamic resources first, so that deletes / re-creations hit the first,
+            # a middle and the last record of the file
+            for name in r.sample(self.names, r.choice([2, 3, 4])):
+                evs.append(ev_inject(0, put(name, self.next_mid())))
+                self.res.add(name)
         for _ in range(n):
             x = r.random()
             if x < 0.22:
@@ -223,7 +229,12 @@ def raw_history(r, layout, max_events=9, big=False):
         elif x < 0.66:
             evs.append(ev_uc(r.choice(cnames)))
         elif x < 0.86:
-            evs.append(ev_ur(r.choice(dnames), rbytes(r, r.choice(sizes))))
+            # the stored packet is a request the unknown-resource handler accepted (a PUT):
+            # the loader hands it to that handler again
+            sz = r.choice(sizes)
+            pkt = coap_msg(0, 3, r.randrange(65536), rbytes(r, r.choice([0, 2, 8])),
+                           path_opts(r.choice(["a", "bb", "d/e"])), rbytes(r, sz) if sz > 12 else b"")
+            evs.append(ev_ur(r.choice(dnames), pkt))
         elif x < 0.95:
             evs.append(ev_ux(r.choice(dnames + cnames[:3])))
         else:
